@@ -1174,6 +1174,20 @@ AUDITED = frozenset([
 ])
 
 
+class environment(object):
+    """bracket for actions of the simulated ENVIRONMENT (another user, an administrator) performed with the real system
+    calls while a simulated process is scheduled: they are not ops of that process and not seam bypasses"""
+
+    def __enter__(self):
+        self.saved = K.active
+        K.active = False
+        return O
+
+    def __exit__(self, *a):
+        K.active = self.saved
+        return False
+
+
 def _audit(event, args):
     # seam completeness tripwire (DESIGN 5.2a): while a simulated process is
     # running, every C-level file-system call must happen inside an op
